@@ -326,6 +326,16 @@ func genC19(c *Cfg, emit func([]string)) {
 			nHuge++
 		}
 	}
+	// the fee setting replaced by another one, field by field down to zero: the setting in force is the
+	// last one given, whatever it replaces (a removed cap no longer caps, a removed floor no longer raises,
+	// a share of 0 charges nothing)
+	for _, first := range []string{"1000000 3 5", "1000000 20 0", "50000000 0 7", "100000000 1 1000"} {
+		for _, second := range []string{"0 0 0", "1000000 0 0", "1000000 3 0", "1000000 0 5", "0 3 5", "2000000 4 6", "1000000 3 5"} {
+			emit([]string{"reset", "setfeeaddr F", "fund u0 100000", "setfee VT " + first, "predict 1000", "predict 100", "transfer u0 u1 1000", "bal",
+				"setfee VT " + second, "predict 1000", "predict 100", "predict 1", "transfer u0 u1 1000", "bal", "transfer u0 u1 100", "bal",
+				"setfee VT " + first, "predict 1000", "transfer u0 u1 1000", "bal"})
+		}
+	}
 	// pure arithmetic on its own: prices and limit tests over magnitudes from 0 to beyond 2^128
 	{
 		bigs := []string{"0", "1", "2", "3", "7", "99999999", "100000000", "100000001", "4294967295", "4294967296", "18446744073709551615",
@@ -389,6 +399,6 @@ func genC19(c *Cfg, emit func([]string)) {
 			nLim++
 		}
 	}
-	c.Rule = fmt.Sprintf("%d random histories: fee settings (share in {0,1,0.5%%,2.5%%,33.3%%,100%%,100%%+1}, floor, cap incl. 0 and cap<floor, own/foreign/unknown currency, rates, limits), user ids (same/different/none), funding {5,1000,1e5,1e12,2^128}, then 3..8 operations (transfer/buy/buyBack/predictFee) with amounts around every break point floor*1e8/share±1, cap*1e8/share±1, balance±1, 0; all balances (token, allowed USD/EUR) of 6 addresses dumped after every operation; non-trivial = contains a transfer/buy; distinct = sha256 of op+output; plus %d histories of huge deals (amounts 2^32..1e30 x rates incl. 2^64: every product beyond 64 bits) with richly funded parties; plus prices and limit tests computed on their own over magnitudes from 0 to beyond 2^128; plus %d histories walking amounts across every combination of a lower and an upper limit (0 = none)", nHist, nHuge, nLim)
+	c.Rule = fmt.Sprintf("fee settings replaced by other ones, field by field down to zero (28 directed histories); %d random histories: fee settings (share in {0,1,0.5%%,2.5%%,33.3%%,100%%,100%%+1}, floor, cap incl. 0 and cap<floor, own/foreign/unknown currency, rates, limits), user ids (same/different/none), funding {5,1000,1e5,1e12,2^128}, then 3..8 operations (transfer/buy/buyBack/predictFee) with amounts around every break point floor*1e8/share±1, cap*1e8/share±1, balance±1, 0; all balances (token, allowed USD/EUR) of 6 addresses dumped after every operation; non-trivial = contains a transfer/buy; distinct = sha256 of op+output; plus %d histories of huge deals (amounts 2^32..1e30 x rates incl. 2^64: every product beyond 64 bits) with richly funded parties; plus prices and limit tests computed on their own over magnitudes from 0 to beyond 2^128; plus %d histories walking amounts across every combination of a lower and an upper limit (0 = none)", nHist, nHuge, nLim)
 	c.Extra = map[string]any{"histories": nHist}
 }
